@@ -1036,6 +1036,7 @@ def _configurations():
     return [('two fields of a bitstruct wire', [a, b]), ('bitstruct wire and one of its fields', [x, a]),
             ('overlapping slices of a Bits wire', [y04, y26]), ('slice of a field and another field', [a02, b]),
             ('Bits wire and one of its slices', [y, y04]), ('members of a top-level signal of another type', [za, zb]),
+            ('a single slice of a Bits wire', [y26]), ('a single field of a bitstruct wire', [b]),
             ('top-level signals only', [x, y])]
 
 
@@ -1173,7 +1174,8 @@ def reduction_results(im):
             sets = {nm: [] for nm in im.red_sets}
             for el in order:
                 env = dict(sets)
-                env.update({im.X: el, 'Bits': 'BITS'})
+                # the set being reduced is visible to the loop body with its concrete contents
+                env.update({im.VARS: list(elems), im.X: el, 'Bits': 'BITS'})
                 try:
                     _run_reduction_body(red.body, _RedEval(env))
                 except _Jump as j:
@@ -2575,6 +2577,8 @@ MUTANTS = [
                            "              final_variables.add( w )\n          elif is_bitstruct_class( w._dsl.Type ):\n"
                            "            if w not in final_variables:\n              final_variables.add( x )\n          else:",
              new="          if issubclass( w._dsl.Type, Bits ):\n            final_variables.add( w )\n          else:")]),
+    _m('dyn-slices-kept-only-if-whole-signal-triggers', "            if w not in final_variables:\n              final_variables.add( w )",
+       "            if w in variables:\n              final_variables.add( w )", 'R-C11-watch'),
     _m('mamba-struct-fields-share-one-snapshot', "          if w not in final_variables:\n            final_variables.add( x )",
        "          if not any( y.get_top_level_signal() is w for y in final_variables ):\n            final_variables.add( x )",
        'R-C11', file=MAMBA),
